@@ -76,6 +76,12 @@ Fixpoint write_at {A} (l : list A) (i : nat) (x : A) : option (list A) :=
   | y :: r, S i' => match write_at r i' x with Some r' => Some (y :: r') | None => None end
   end.
 
+(* copy a block into buf at index at_ (ptr::copy_nonoverlapping / read_exact into a slot):
+   None when the block does not lie inside the buffer *)
+Definition splice {A} (buf : list A) (at_ : nat) (bs : list A) : option (list A) :=
+  if Nat.leb (at_ + length bs) (length buf)
+  then Some (firstn at_ buf ++ bs ++ skipn (at_ + length bs) buf) else None.
+
 (* apply f exactly n times, stopping at the first non-Ok outcome; structural on the
    binary representation so that a count of 2^64 read from the wire needs no fuel and
    costs nothing unless the iterations really succeed. *)
